@@ -1429,3 +1429,5 @@ RULE += (' Added: user elements that keep the static context they are given, in 
          'Split behind list- and dict-valued SetContext elements (identity walk between them).')
 RULE += (' Added: branches given as bare elements that handle static context themselves (a user '
          'fill/compute element, an inner Split of fill/compute sequences).')
+
+RULE += (" Round 10: every resolvable tree is also deep-copied as a whole and the copy's consumers observed; SetContext keys of 8..100 dotted components sharing their prefix.")
